@@ -58,4 +58,29 @@ pub open spec fn res_eq(a: (Option<(Seq<FlowSet>, Seq<u8>)>, V9Parser), b: (Opti
 pub open spec fn flowsets_post<'a>(old_p: V9Parser, new_p: V9Parser, b: &'a [u8], n: u16, r: IResult<&'a [u8], Vec<FlowSet>>) -> bool {
     res_eq((match r { Ok((rem, v)) => Some((v@, rem@)), Err(_) => None }, new_p), flowsets_spec(old_p, b@, n as int))
 }
+/// a suffix of a suffix is a suffix
+pub proof fn lemma_suffix_trans(a: Seq<u8>, b: Seq<u8>, c: Seq<u8>)
+    requires is_suffix(a, b), is_suffix(b, c),
+    ensures is_suffix(a, c),
+{
+    assert(a =~= c.subrange(c.len() - a.len(), c.len() as int));
+}
+/// what the flowset loop leaves unread is a suffix of what it was given
+pub proof fn lemma_flowsets_suffix(st: V9Parser, b: Seq<u8>, n: int)
+    ensures flowsets_spec(st, b, n).0 matches Some((_, rest)) ==> is_suffix(rest, b),
+    decreases n
+{
+    if n <= 0 || b.len() == 0 {
+        assert(b =~= b.subrange(0, b.len() as int));
+    } else {
+        let (r, st1) = set_step(st, b);
+        if r is Some {
+            let rest = r->Some_0.1;
+            assert(rest =~= b.subrange(b.len() - rest.len(), b.len() as int));
+            lemma_flowsets_suffix(st1, rest, n - 1);
+            let r2 = flowsets_spec(st1, rest, n - 1).0;
+            if r2 is Some { lemma_suffix_trans(r2->Some_0.1, rest, b); }
+        }
+    }
+}
 } // verus!
